@@ -81,5 +81,21 @@ theorem initOps_rep (cl : Option Query.Expr) (d : List (Str × Val)) (o : Query.
     rw [aget_opsConn _ _ (by decide), aget_aset_ne _ _ _ _ (by decide), aget_opsDefault _ _ _ (by decide)]
   · unfold initOps truthyOpt
     rw [aget_opsConn _ _ (by decide), aget_aset_ne _ _ _ _ (by decide), aget_opsDefault _ _ _ (by decide)]
+
+theorem mem_joinS_head (sep a : Str) (l : List Str) (c : Char) (h : c ∈ a) : c ∈ joinS sep (a :: l) := by
+  cases l with
+  | nil => simpa [joinS] using h
+  | cons b l => simp [joinS, h]
+
+/-- the text of a non-empty keyword clause is never the word `all` (it contains a blank) -/
+theorem condsText_ne_all (c : Query.Cond) (cs : List Query.Cond) : condsText sr sch (c :: cs) ≠ ['a', 'l', 'l'] := by
+  intro h
+  have : ' ' ∈ condsText sr sch (c :: cs) := by
+    unfold condsText
+    simp only [List.map_cons]
+    apply mem_joinS_head
+    simp [condText]
+  rw [h] at this
+  simp at this
 end
 end SqlObjVerif.QueryX
